@@ -22,7 +22,7 @@ CLAIMS = {
          "5 C07", "usize is 64 bits; streams shorter than the address space (precondition); units of enumerated types only in Kani, generic MaxSizeOf power-of-two is a trait-level contract"),
  "C10": ("Verus V-HEADER: check_header and both blanket entry points (deserialize_full, deserialize_eps) return exactly the row of the header decision table of the statement - for all types T, all readers obeying the reader contract, all header bytes and stream lengths - and write_header emits exactly the header the table accepts (lemma) + Kani lemma over all 2^232 values of the 29 fixed header bytes on the unmodified crate, both modes",
          "5 C10", "Verus: primitives and String are assumed contracts, xxh3 is an uninterpreted digest of the hash feed, the cookies are opaque constants (their bytes are Kani's); Kani: String::from_utf8 stubbed (std validator trusted), enumerated types"),
- "C11": ("Verus V-DESER/V-DERIVE: Short parse => Err(ReadError) for every reader obeying the contract, and the trait-level prefix lemma (every strict prefix of a successful parse is Short) proved for all impls under contract and for deep sequences of any length + Kani cut lemmas on exact-size prefixes, both modes",
+ "C11": ("Verus V-HEADER (the header is self-delimiting; every strict prefix of an accepted stream lands on a Short row or on an accepted header followed by a Short value, which deserialize_full answers with a read error: lemma_stream_prefix over the entry point's contract) + Verus V-DESER/V-DERIVE: Short parse => Err(ReadError) for every reader obeying the contract, and the trait-level prefix lemma (every strict prefix of a successful parse is Short) proved for all impls under contract and for deep sequences of any length + Kani cut lemmas on exact-size prefixes, both modes",
          "5 C11", "file-backed entry points (load_full, mmap) not reachable; eps bounds-check panics whitelisted by description as the statement allows"),
  "C12": ("Kani placement lemmas: Ok iff every reference block lands on a multiple of its unit, over symbolic base residues; V-DESER SliceWithPos::align contract",
          "5 C12", "residues 0..15 (0..127 for one type in thorough); pointer-to-address relation not modelled in Verus"),
